@@ -239,11 +239,12 @@ theorem names_wrap1E (name : Str) (inner : TExpr) : ∀ n ∈ namesOf (wrap1E na
 
 def notTyping (s : Str) : Bool := !typingNames.contains s
 
-/-- the names the node takes from the input are not typing names, and the node is not a set under
-generic-container + standard-collections (known defect: `FrozenSet` is written, `Set` imported) -/
-def coverAttrs (o : Opts) (a : Attrs) : Bool :=
+/-- the names the node takes from the input are not typing names (nothing about the options: since
+the repair of C02-F2 the set clause of `DataType.imports` names what `type_hint` writes under every
+option vector, `cover_set`) -/
+def coverAttrs (_o : Opts) (a : Attrs) : Bool :=
   notTyping a.ty && (match a.ref with | some r => notTyping r.shortName | none => true) &&
-  a.literals.all notTyping && !(o.genericCont && o.stdColl && a.isSet && !a.isList)
+  a.literals.all notTyping
 
 def flatKey (t : DT) : Bool := t.key.isNone && t.kids.isEmpty
 
@@ -286,7 +287,7 @@ theorem names_baseE (o : Opts) (a : Attrs) (kidEs : List TExpr) (hc : coverAttrs
        (if a.literals ≠ [] then [sLiteral] else []) ++ (if a.ty = [] then namesOfL kidEs else [])) := by
   unfold coverAttrs at hc
   simp only [Bool.and_eq_true, notTyping_iff, List.all_eq_true] at hc
-  obtain ⟨⟨⟨hty, href⟩, hlit⟩, _⟩ := hc
+  obtain ⟨⟨hty, href⟩, hlit⟩ := hc
   intro n hn ht
   unfold baseE at hn
   split at hn
@@ -350,17 +351,13 @@ theorem cover_list (o : Opts) (a : Attrs) (opt : Bool) (n : Nat) (ks : List Imp)
   · exact mem_impNames_nodeImports_of_cond _ a opt n ks IMPORT_ABC_SEQUENCE (by simp [condTable, h])
 
 theorem cover_set (o : Opts) (a : Attrs) (opt : Bool) (n : Nat) (ks : List Imp) (h : a.isSet = true)
-    (hl : a.isList = false) (hc : coverAttrs o a = true)
     (ht : setName o ∈ typingNames) : setName o ∈ impNames (nodeImports o a opt n ks) := by
-  unfold coverAttrs at hc
-  simp only [Bool.and_eq_true, Bool.not_eq_true', Bool.and_eq_false_iff] at hc
-  obtain ⟨_, hfz⟩ := hc
   obtain ⟨u, s, g⟩ := o
   cases g <;> cases s
   · exact mem_impNames_nodeImports_of_cond _ a opt n ks IMPORT_SET (by simp [condTable, h])
   · exact absurd ht (by cases u <;> decide)
   · exact mem_impNames_nodeImports_of_cond _ a opt n ks IMPORT_FROZEN_SET (by simp [condTable, h])
-  · simp [h, hl] at hfz
+  · exact mem_impNames_nodeImports_of_cond _ a opt n ks IMPORT_FROZEN_SET (by simp [condTable, h])
 
 theorem cover_dict (o : Opts) (a : Attrs) (opt : Bool) (n : Nat) (ks : List Imp) (h : a.isDict = true)
     (ht : dictName o ∈ typingNames) : dictName o ∈ impNames (nodeImports o a opt n ks) := by
@@ -453,7 +450,7 @@ theorem node_cover (o : Opts) (a : Attrs) (keyE : Option TExpr) (kidEs : List TE
         · rename_i hty; left; exact hC hty m h1 hmt
         · cases h1
     · right; exact cover_list o a opt _ ks hl hmt
-    · right; exact cover_set o a opt _ ks hs hl hc hmt
+    · right; exact cover_set o a opt _ ks hs hmt
     · right
       rcases h with rfl | ⟨k, hk, hmk⟩
       · have hd : a.isDict = true := by
